@@ -34,6 +34,10 @@ var DegenerateSchemas = []string{
 	// resolvable references next to degenerate keywords
 	`{"definitions":{"e":{"enum":[]}},"properties":{"a":{"$ref":"#/definitions/e"}}}`, `{"definitions":{"p":{"pattern":"("}},"items":{"$ref":"#/definitions/p"}}`,
 	`{"definitions":{"a":{"$ref":"#/definitions/b"},"b":{"type":"integer"}},"allOf":[{"$ref":"#/definitions/a"}]}`,
+	// recursive references that descend into the instance (finite on every finite instance)
+	`{"definitions":{"t":{"properties":{"k":{"$ref":"#/definitions/t"},"a":{"enum":[]}}}},"properties":{"a":{"$ref":"#/definitions/t"}}}`,
+	`{"definitions":{"l":{"items":{"$ref":"#/definitions/l"},"maxItems":-1}},"items":{"$ref":"#/definitions/l"}}`,
+	`{"definitions":{"m":{"additionalProperties":{"$ref":"#/definitions/m"}}},"additionalProperties":{"$ref":"#/definitions/m"}}`,
 }
 
 func nest(open, close, core string, n int) string {
